@@ -47,9 +47,13 @@ func c13Doc(t *rapid.T, tag string) map[string]any {
 }
 
 // c13Query draws one query over a document built with the given tag.
-func c13Query(t *rapid.T, tag string, site int, readOnlyOnly bool) (q string, orderOpen bool, kind string, reader bool) {
+func c13Query(t *rapid.T, tag string, site int, readOnlyOnly bool, onlyKind ...string) (q string, orderOpen bool, kind string, reader bool) {
 	kinds := []string{"filter", "subquery", "exists", "join", "pjoin", "group", "async", "order", "cte", "phash", "reader", "in_sub", "spinasync", "derived",
-		"range_reader", "range_from", "distinct_reader", "cte_async", "derived_async", "sub_async", "range_col", "pjoin_fail", "var_corunner", "join_using", "union", "distinct_wide", "distinct_wide_reader", "cte_join_using", "cte_self_pjoin", "like", "like", "cte_direct_slow", "sub2_async", "constants", "report"}
+		"range_reader", "range_from", "distinct_reader", "cte_async", "derived_async", "sub_async", "range_col", "pjoin_fail", "var_corunner", "join_using", "union", "distinct_wide", "distinct_wide_reader", "cte_join_using", "cte_self_pjoin", "like", "like", "cte_direct_slow", "sub2_async", "constants", "report", "pjoin_on_exists", "pjoin_on_exists"}
+	if len(onlyKind) > 0 {
+		// (bundles made of one kind only: a known finding is attached to that kind, see known_findings.json)
+		kinds = onlyKind
+	}
 	kind = rapid.SampledFrom(kinds).Draw(t, "qkind")
 	k := rapid.IntRange(0, 4).Draw(t, "k") * 10
 	T, U, id, a, s, n, v, b := "t"+tag, "u"+tag, "id"+tag, "a"+tag, "s"+tag, "n"+tag, "v"+tag, "b"+tag
@@ -100,6 +104,17 @@ func c13Query(t *rapid.T, tag string, site int, readOnlyOnly bool) (q string, or
 		pat := rapid.SampledFrom([]string{"x%", "%y", "y", "%", "x", "_", "%x%"}).Draw(t, "likepat")
 		neg := rapid.SampledFrom([]string{"", "NOT "}).Draw(t, "likeneg")
 		return fmt.Sprintf("SELECT %s, %s FROM %s WHERE %s %sLIKE '%s'", id, s, T, s, neg, pat), false, kind, false
+	case "pjoin_on_exists":
+		// the workers of a PARALLEL join evaluate ON - and the nested selects in it - concurrently on one query
+		jt := rapid.SampledFrom([]string{"PARALLEL JOIN", "PARALLEL LEFT JOIN", "PARALLEL STRAIGHT_JOIN"}).Draw(t, "pejt")
+		sub := rapid.SampledFrom([]string{"EXISTS (SELECT * FROM `<-.%T%`)", "EXISTS (SELECT %ID% FROM `<-.%U%` WHERE %ID% >= 0)", "(SELECT %ID% FROM `<-.%U%`) IS NOT NULL",
+			"EXISTS (SELECT AWAIT(%ID%) AS r FROM `<-.%T%`)", "x.%ID% IN (SELECT %ID% FROM `<-.%T%`)"}).Draw(t, "pesub")
+		sub = strings.NewReplacer("%T%", T, "%U%", U, "%ID%", id).Replace(sub)
+		return fmt.Sprintf("SELECT * FROM %s x %s %s y ON x.%s <= y.%s AND %s", T, jt, U, id, id, sub), true, kind, false
+	case "pjoin_on_cte":
+		// a CTE nobody has read yet is first read by the ON clause of a PARALLEL join: by all its workers at once
+		jt := rapid.SampledFrom([]string{"PARALLEL JOIN", "PARALLEL LEFT JOIN"}).Draw(t, "pcjt")
+		return fmt.Sprintf("WITH k%s AS (SELECT %s, ASYNC.fx(%d, %s) AS y FROM %s) SELECT * FROM %s x %s %s y ON x.%s <= y.%s AND EXISTS (SELECT %s FROM `<-.k%s`)", tag, id, site, a, T, T, jt, U, id, id, id, tag), true, kind, false
 	case "constants":
 		// every caller passes the same constants map (shared configuration): it is only ever read
 		return fmt.Sprintf("SELECT %s, CONSTANT('unit') AS unit, CONSTANT('conf') AS conf, (SELECT CONSTANT('unit') AS u2 FROM dual) AS sub FROM %s WHERE %s >= CONSTANT('lim')", id, T, a), false, kind, false
@@ -158,11 +173,16 @@ func c13Query(t *rapid.T, tag string, site int, readOnlyOnly bool) (q string, or
 
 func genC13(t *rapid.T) *Bundle {
 	config := rapid.SampledFrom([]string{"separate_cold", "separate_warm", "shared", "same_text"}).Draw(t, "config")
+	var onlyKind []string
+	if rapid.IntRange(0, 24).Draw(t, "cte_in_parallel_on") == 0 {
+		onlyKind = []string{"pjoin_on_cte"}
+	}
 	nclients := rapid.IntRange(2, 4).Draw(t, "nclients")
 	var docs []json.RawMessage
 	var clients []casefmt.Client
 	exp := c13Expect{Config: config}
 	site := 0
+	kindsUsed := map[string]bool{}
 	var varsets []map[string]any
 	tagFor := func(ci int) string {
 		if config == "separate_cold" {
@@ -183,7 +203,7 @@ func genC13(t *rapid.T) *Bundle {
 		var open []bool
 		for oi := 0; oi < nops; oi++ {
 			site++
-			q, oo, qkind, reader := c13Query(t, tag, site, config == "shared")
+			q, oo, qkind, reader := c13Query(t, tag, site, config == "shared", onlyKind...)
 			di := ci
 			if config == "shared" {
 				di = 0
@@ -195,6 +215,7 @@ func genC13(t *rapid.T) *Bundle {
 				vi = len(varsets) - 1
 			}
 			cl.Ops = append(cl.Ops, casefmt.Op{Doc: di, Vars: vi, Query: q, Reader: reader, ConstShared: qkind == "constants"})
+			kindsUsed[qkind] = true
 			open = append(open, oo)
 		}
 		clients = append(clients, cl)
@@ -255,7 +276,13 @@ func genC13(t *rapid.T) *Bundle {
 				Kind: rapid.SampledFrom([]string{"error", "panic"}).Draw(t, "fault_kind")})
 		}
 	}
-	return &Bundle{Prop: "C13", Kind: config, Case: c, Expect: mustJSON(exp), Tags: []string{"config:" + config}}
+	tags := []string{"config:" + config}
+	for _, k := range []string{"pjoin_on_exists", "pjoin_on_cte"} {
+		if kindsUsed[k] {
+			tags = append(tags, "qkind:"+k)
+		}
+	}
+	return &Bundle{Prop: "C13", Kind: config, Case: c, Expect: mustJSON(exp), Tags: tags}
 }
 
 // soloCase derives the case in which only client ci runs (same documents,
